@@ -172,6 +172,7 @@ fn one_run(st: &mut Stats, c: &Case, pseed: u64, sigs: &mut HashSet<u64>, perms:
     // bounded progress, logical criterion
     let mut last_seq = verif::seq();
     let mut last_change = Instant::now();
+    let mut cpu_at_change = crate::rec::cpu_s();
     let stall_s: f64 = std::env::var("VERIF_DEADLOCK_S").ok().and_then(|s| s.parse().ok()).unwrap_or(20.0);
     let got: Result<RangeMap, String> = loop {
         match rx.recv_timeout(Duration::from_millis(200)) {
@@ -182,6 +183,7 @@ fn one_run(st: &mut Stats, c: &Case, pseed: u64, sigs: &mut HashSet<u64>, perms:
                 if sq != last_seq {
                     last_seq = sq;
                     last_change = Instant::now();
+                    cpu_at_change = crate::rec::cpu_s();
                     continue;
                 }
                 if last_change.elapsed().as_secs_f64() > stall_s && all_other_threads_sleeping() {
@@ -194,6 +196,17 @@ fn one_run(st: &mut Stats, c: &Case, pseed: u64, sigs: &mut HashSet<u64>, perms:
                         "deadlock",
                         c,
                         json!({"pseed": pseed, "why": "no event for the stall window, every thread asleep, call has not returned", "no_progress_s": last_change.elapsed().as_secs_f64(), "workers_spawned": spawned, "workers_done": workers_done, "main_at_join": at_join, "collector_ended": cend, "events": ev_json(&log)}),
+                    );
+                    return RunOut { deadlocked: true };
+                }
+                // livelock / busy spin: no hook event for the stall window although the process keeps burning CPU
+                let spin_s: f64 = std::env::var("VERIF_SPIN_CPU_S").ok().and_then(|s| s.parse().ok()).unwrap_or(45.0);
+                if crate::rec::cpu_s() - cpu_at_change > spin_s {
+                    let log = verif::snapshot();
+                    st.violate(
+                        "no_progress_while_spinning",
+                        c,
+                        json!({"pseed": pseed, "why": "the call has not returned, no hook event was logged, and the process burned CPU for the whole window (busy wait / livelock)", "cpu_seconds_without_event": crate::rec::cpu_s() - cpu_at_change, "collector_ended": log.iter().any(|e| e.point == "collector_end"), "workers_done": log.iter().filter(|e| e.point == "after_send").count(), "events": ev_json(&log)}),
                     );
                     return RunOut { deadlocked: true };
                 }
@@ -420,6 +433,29 @@ pub fn run(ctx: &Ctx, st: &mut Stats) {
         };
         check(ctx, st, &c);
         st.count("runs.long_range_high_latitude_default_policy");
+        st.nontrivial_key(hash64(&format!("{:?}", (c.workers, c.days, c.pseed))));
+    }
+    // medium ranges at 50-62 deg under the default policy with many workers: many partition starts inside the
+    // no-twilight season (a per-sweep carried state shows as a dependence on where a partition starts)
+    for k in 0..ctx.pick(6, 200) {
+        if st.extra.contains_key("aborted_after_deadlock") {
+            break;
+        }
+        let lon = gen::any_lon(&mut r);
+        let c = Case {
+            site: Site::new(r.range(50.0, 62.0) * r.sign(), lon, 0.0, gen::gmt_near(&mut r, lon, 1.0)),
+            method: *r.pick(&ANGLE_METHODS),
+            default_policy: true,
+            start: d2s(from_ce(r.int(day_lo() as i64, day_hi() as i64 - 1200) as i32)),
+            days: r.int(365, 1000),
+            workers: *r.pick(&[16usize, 31, 32, 64]),
+            threshold: 0,
+            pseed: ctx.seed * 13_000_003 + ctx.shard * 977 + k * 41 + 1,
+            max_sleep_us: 0,
+            repeats: 1,
+        };
+        check(ctx, st, &c);
+        st.count("runs.medium_range_high_latitude_default_policy");
         st.nontrivial_key(hash64(&format!("{:?}", (c.workers, c.days, c.pseed))));
     }
     // several CALLERS at once in one process (a service answering requests on a thread pool): every call must
